@@ -143,7 +143,11 @@ def build_universe(ch):
 def build_many(ch):
     """beyond the small scope: the slab decks of C01 (12 ... 130 planes) with every 3rd / every plane flagged"""
     from . import c01
-    st = c01.b_slabs(ch)
+    if ch.choose('very-many', [False, True], free=True):
+        # more than a thousand boundary conditions in one file (one deck per flag pattern)
+        st = c01.b_slabs(c01.DefaultAnswers(), n_override=1100)
+    else:
+        st = c01.b_slabs(ch)
     every = ch.choose('flag-every', [3, 1, 10], free=True)
     kinds = ch.choose('flag-kinds', ['*', '+', 'alternating'], free=True)
     st.flagged = {}
